@@ -69,6 +69,15 @@ theorem read_decrypts (C : Crypto) (hC : CryptoInv C) (key : Bytes) (c : Comp) (
   · simp only [mkComp, zeroPad]
     exact List.take_append_of_le_length hlen.2
 
+/-- the same for the bundled AES plug-in, with no hypothesis about the cipher left (C16 `aes_plugin_instance`) -/
+theorem read_decrypts_aes (key : Bytes) (c : Comp) (raw : Bytes)
+    (henc : c.enc = true) (htag : c.desc.lookup Gen.BF3TAG_ENC = some sessionKeyEnc)
+    (hlen : 1 ≤ c.actualLen ∧ c.actualLen ≤ c.blob.length)
+    (hraw : getRawData aesCrypto key c = .ok raw) :
+    ∃ c', readBack aesCrypto key c raw = .ok c' ∧ c'.enc = true ∧ c'.desc = c.desc ∧ c'.actualLen = c.actualLen ∧
+      c'.blob = zeroPad c.blob ∧ c'.blob.take c.actualLen = c.blob.take c.actualLen :=
+  read_decrypts aesCrypto Props.C16.aes_plugin_instance.1 key c raw henc htag hlen hraw
+
 theorem dirEntries_congr (C : Crypto) (k : Bytes) (comps comps' : List Comp)
     (hk : List.map (fun c => (c.desc, c.actualLen, getRawData C k c)) comps =
       List.map (fun c => (c.desc, c.actualLen, getRawData C k c)) comps') :
